@@ -445,12 +445,18 @@ theorem applyStr_lands (c c' : Column) (p : StrFacts → Outcome Cell) (P : Cell
   | none =>
     simp only [hs] at hgy
     by_cases hn : x.null = true
-    · simp only [hn, if_true] at hgy; cases hgy; exact ⟨fun _ => hn, fun h => by rw [hn] at h; cases h⟩
+    · simp only [hn, if_true] at hgy
+      cases hgy
+      constructor
+      · intro _; exact hn
+      · intro h; rw [hn] at h; cases h
     · simp [hn] at hgy
   | some f =>
     simp only [hs] at hgy
     have hnn := hstr x hx (by simp [hs])
-    exact ⟨fun h => by rw [hnn] at h; cases h, fun _ => hp f y hgy⟩
+    constructor
+    · intro h; rw [hnn] at h; cases h
+    · intro _; exact hp f y hgy
 
 /-- a `str` element is never missing (H_str, second half; validated by α) -/
 def StrNotNull (c : Column) : Prop := ∀ x ∈ c.cells, x.str.isSome = true → x.null = false
@@ -472,9 +478,6 @@ theorem lands_string_geometry (c c' : Column) (hsrc : stringContains c = true) (
 theorem lands_string_uuid (c c' : Column) (hsrc : stringContains c = true) (hs : StrNotNull c)
     (hx : stringToUuid c = .ok c') : uuidContains c' = true := by
   have hv : HasValue c := (notEmpty_handle_true hsrc).1
-  have hx' : applyStr c (fun f => match f.uuid with | .ok r => .ok (uuidCell r) | .raises cls => .raises cls)
-      (fun x => if x.null then .ok x else .raises "TypeError") = .ok c' ∨ True := Or.inr trivial
-  -- the transformer raises AttributeError, not TypeError, on a non-string non-missing cell; the spec is the same
   obtain ⟨hr, hc⟩ := applyStr_spec c c' _ _ hx
   have := objval_lands c c' _ (fun x => x.isUUID && x.hasUuidAttrs) hr hc hv (by
     intro x hxm y hgy
@@ -482,20 +485,216 @@ theorem lands_string_uuid (c c' : Column) (hsrc : stringContains c = true) (hs :
     | none =>
       simp only [hst] at hgy
       by_cases hn : x.null = true
-      · simp only [hn, if_true] at hgy; cases hgy; exact ⟨fun _ => hn, fun h => by rw [hn] at h; cases h⟩
+      · simp only [hn, if_true] at hgy
+        cases hgy
+        constructor
+        · intro _; exact hn
+        · intro h; rw [hn] at h; cases h
       · simp [hn] at hgy
     | some f =>
       simp only [hst] at hgy
       have hnn := hs x hxm (by simp [hst])
-      refine ⟨fun h => by rw [hnn] at h; cases h, fun _ => ?_⟩
-      cases hu : f.uuid with
-      | ok r => simp only [hu] at hgy; cases hgy; simp [uuidCell, Cell.ofObj, Cell.blank]
-      | raises cls => simp only [hu] at hgy; cases hgy)
-  simp only [uuidContains, containsInstanceAttrs]
-  have e : ∀ d : Column, (if !((d.cells.take 1).all (·.isUUID)) then false
-      else d.cells.all (fun x => x.isUUID && x.hasUuidAttrs)) = d.cells.all (fun x => x.isUUID && x.hasUuidAttrs) :=
-    fun d => prefix_subsumed _ _ 1 d.cells
-  simp only [e]
+      constructor
+      · intro h; rw [hnn] at h; cases h
+      · intro _
+        cases hu : f.uuid with
+        | ok r => simp only [hu] at hgy; cases hgy; simp [uuidCell, Cell.ofObj, Cell.blank]
+        | raises cls => simp only [hu] at hgy; cases hgy)
+  have e : containsInstanceAttrs (·.isUUID) (·.hasUuidAttrs) = (fun d : Column => d.cells.all (fun x => x.isUUID && x.hasUuidAttrs)) := by
+    funext d
+    simp only [containsInstanceAttrs]
+    exact prefix_subsumed _ _ 1 d.cells
+  simp only [uuidContains, e]
   exact this.1
+
+
+/-- `applyStr_lands` for any exception class raised on a non-string, non-missing cell -/
+theorem applyStr_lands' (cls : String) (c c' : Column) (p : StrFacts → Outcome Cell) (P : Cell → Bool)
+    (h : applyStr c p (fun x => if x.null then .ok x else .raises cls) = .ok c')
+    (hv : HasValue c) (hstr : StrNotNull c)
+    (hp : ∀ f y, p f = .ok y → y.null = false ∧ P y = true) :
+    notEmptyB (handleNullsB (fun c => c.cells.all P)) c' = true ∧
+    handleNullsB (notEmptyB (fun c => c.cells.all P)) c' = true := by
+  obtain ⟨hr, hc⟩ := applyStr_spec c c' _ _ h
+  apply objval_lands c c' _ P hr hc hv
+  intro x hx y hgy
+  cases hs : x.str with
+  | none =>
+    simp only [hs] at hgy
+    by_cases hn : x.null = true
+    · simp only [hn, if_true] at hgy
+      cases hgy
+      constructor
+      · intro _; exact hn
+      · intro h; rw [hn] at h; cases h
+    · simp [hn] at hgy
+  | some f =>
+    simp only [hs] at hgy
+    have hnn := hstr x hx (by simp [hs])
+    constructor
+    · intro h; rw [hnn] at h; cases h
+    · intro _; exact hp f y hgy
+
+theorem instanceAttrs_eq_all (p q : Cell → Bool) :
+    containsInstanceAttrs p q = (fun d : Column => d.cells.all (fun x => p x && q x)) := by
+  funext d
+  simp only [containsInstanceAttrs]
+  exact prefix_subsumed _ _ 1 d.cells
+
+theorem lands_string_ip (c c' : Column) (hsrc : stringContains c = true) (hs : StrNotNull c)
+    (hx : stringToIp c = .ok c') : ipContains c' = true := by
+  have hv : HasValue c := (notEmpty_handle_true hsrc).1
+  exact (applyStr_lands' "ValueError" c c' _ (·.isIP) hx hv hs (by
+    intro f y hy
+    cases hw : f.ip with
+    | ok v => simp only [hw] at hy; cases hy; simp [ipCell, Cell.ofObj, Cell.blank]
+    | raises cls => simp only [hw] at hy; cases hy)).1
+
+theorem lands_string_email (c c' : Column) (hsrc : stringContains c = true) (hs : StrNotNull c)
+    (hx : stringToEmail c = .ok c') : emailContains c' = true := by
+  have hv : HasValue c := (notEmpty_handle_true hsrc).1
+  have := (applyStr_lands' "TypeError" c c' _ (fun x => x.isFQDA && x.hasEmailAttrs) hx hv hs (by
+    intro f y hy
+    cases hw : f.email with
+    | ok v => simp only [hw] at hy; cases hy; simp [emailCell, Cell.ofObj, Cell.blank]
+    | raises cls => simp only [hw] at hy; cases hy)).1
+  simp only [emailContains, instanceAttrs_eq_all]
+  exact this
+
+theorem lands_string_url (c c' : Column) (hsrc : stringContains c = true) (hs : StrNotNull c)
+    (hx : stringToUrl c = .ok c') : urlContains c' = true := by
+  have hv : HasValue c := (notEmpty_handle_true hsrc).1
+  have := (applyStr_lands' "AttributeError" c c' _ (fun x => x.isParseResult && x.hasUrlAttrs) hx hv hs (by
+    intro f y hy
+    cases hw : f.url with
+    | ok v => simp only [hw] at hy; cases hy; simp [urlCell, Cell.ofObj, Cell.blank]
+    | raises cls => simp only [hw] at hy; cases hy)).2
+  simp only [urlContains, instanceAttrs_eq_all]
+  exact this
+
+
+/-- membership-restricted version: the parser facts only need to be good for the cells of the column -/
+theorem applyStr_lands_mem (cls : String) (c c' : Column) (p : StrFacts → Outcome Cell) (P : Cell → Bool)
+    (h : applyStr c p (fun x => if x.null then .ok x else .raises cls) = .ok c')
+    (hv : HasValue c) (hstr : StrNotNull c)
+    (hp : ∀ x ∈ c.cells, ∀ f, x.str = some f → ∀ y, p f = .ok y → y.null = false ∧ P y = true) :
+    notEmptyB (handleNullsB (fun c => c.cells.all P)) c' = true := by
+  obtain ⟨hr, hc⟩ := applyStr_spec c c' _ _ h
+  apply (objval_lands c c' _ P hr hc hv ?_).1
+  intro x hx y hgy
+  cases hs : x.str with
+  | none =>
+    simp only [hs] at hgy
+    by_cases hn : x.null = true
+    · simp only [hn, if_true] at hgy
+      cases hgy
+      constructor
+      · intro _; exact hn
+      · intro h; rw [hn] at h; cases h
+    · simp [hn] at hgy
+  | some f =>
+    simp only [hs] at hgy
+    have hnn := hstr x hx (by simp [hs])
+    constructor
+    · intro h; rw [hnn] at h; cases h
+    · intro _; exact hp x hx f hs y hgy
+
+theorem dropna_cells_nonans (c : Column) (h : c.hasnans = false) : c.dropna.cells = c.cells := by
+  rw [dropna_cells, List.filter_eq_self]
+  intro x hx
+  simp [(hasnans_false_iff c).mp h x hx]
+
+def winOut (x : Cell) : Outcome (Bool × String) := match x.str with | some f => f.winAbs | none => Outcome.raises "TypeError"
+def pxOut (x : Cell) : Outcome (Bool × String) := match x.str with | some f => f.posixAbs | none => Outcome.raises "TypeError"
+def isAbs (v : Outcome (Bool × String)) : Bool := match v with | .ok (b, _) => b | _ => false
+
+/-- what acceptance of `string_is_path` says about the non-missing cells -/
+theorem stringIsPath_spec (c : Column) (hg : stringIsPath c = .ok true) :
+    firstRaise (c.dropna.cells.map winOut) = none ∧
+    ((c.dropna.cells.map winOut).all isAbs = true ∨
+     ((c.dropna.cells.map winOut).all isAbs = false ∧ (c.dropna.cells.map pxOut).all isAbs = true)) := by
+  have core : ∀ d : Column,
+      (match firstRaise (d.cells.map winOut) with
+       | some cls => if isA cls "TypeError" then (.ok false : R Bool) else .error (escape cls)
+       | _ =>
+         if (d.cells.map winOut).all isAbs then .ok true
+         else match firstRaise (d.cells.map pxOut) with
+           | some cls => if isA cls "TypeError" then .ok false else .error (escape cls)
+           | _ => .ok ((d.cells.map pxOut).all isAbs)) = .ok true →
+      firstRaise (d.cells.map winOut) = none ∧
+      ((d.cells.map winOut).all isAbs = true ∨
+       ((d.cells.map winOut).all isAbs = false ∧ (d.cells.map pxOut).all isAbs = true)) := by
+    intro d h
+    split at h
+    · split at h <;> cases h
+    · rename_i hf
+      have hq : firstRaise (d.cells.map winOut) = none := by
+        cases hq : firstRaise (d.cells.map winOut) with
+        | none => rfl
+        | some cls => exact absurd hq (hf cls)
+      refine ⟨hq, ?_⟩
+      by_cases hall : (d.cells.map winOut).all isAbs = true
+      · exact Or.inl hall
+      · have hall' : (d.cells.map winOut).all isAbs = false := by simpa using hall
+        right
+        refine ⟨hall', ?_⟩
+        simp only [hall', Bool.false_eq_true, if_false] at h
+        split at h
+        · split at h <;> cases h
+        · simpa using h
+  simp only [stringIsPath] at hg
+  rcases handleNulls_ok_true hg with ⟨_, _, h3⟩ | ⟨hn, h3⟩
+  · exact core c.dropna h3
+  · have := core c h3
+    rw [← dropna_cells_nonans c hn] at this
+    exact this
+
+theorem lands_string_path (c c' : Column) (hsrc : stringContains c = true) (hs : StrNotNull c)
+    (hg : stringIsPath c = .ok true) (hx : stringToPath c = .ok c') : pathContains c' = true := by
+  have hv : HasValue c := (notEmpty_handle_true hsrc).1
+  obtain ⟨_, hflav⟩ := stringIsPath_spec c hg
+  -- every non-missing cell is among the cells the flavour was decided on
+  have hmemnn : ∀ x ∈ c.cells, ∀ f, x.str = some f → x ∈ c.dropna.cells := by
+    intro x hx f hf
+    exact mem_dropna.mpr ⟨hx, hs x hx (by simp [hf])⟩
+  simp only [stringToPath] at hx
+  split at hx
+  · cases hx
+  · simp only [pathContains]
+    have hx : (if (c.dropna.cells.map winOut).all isAbs = true then
+          applyStr c (fun f => match f.winAbs with | .ok (b, r) => .ok (purePathCell "PureWindowsPath" b r) | .raises cls => .raises cls)
+            (fun x => if x.null then .ok x else .raises "TypeError")
+        else
+          applyStr c (fun f => match f.posixAbs with | .ok (b, r) => .ok (purePathCell "PurePosixPath" b r) | .raises cls => .raises cls)
+            (fun x => if x.null then .ok x else .raises "TypeError")) = .ok c' := hx
+    rcases hflav with hall | ⟨hall, hpx⟩
+    · simp only [hall, if_true] at hx
+      apply applyStr_lands_mem "TypeError" c c' _ (fun x => x.isPurePath && x.pathAbs) hx hv hs
+      intro x hxm f hf y hy
+      have hin := hmemnn x hxm f hf
+      have := List.all_eq_true.mp hall (winOut x) (List.mem_map_of_mem hin)
+      simp only [winOut, hf] at this
+      cases hwv : f.winAbs with
+      | ok v =>
+        rw [hwv] at this hy
+        obtain ⟨b, r⟩ := v
+        simp only [isAbs] at this
+        cases hy
+        simp [purePathCell, Cell.ofObj, Cell.blank, this]
+      | raises cls => rw [hwv] at hy; cases hy
+    · simp only [hall, Bool.false_eq_true, if_false] at hx
+      apply applyStr_lands_mem "TypeError" c c' _ (fun x => x.isPurePath && x.pathAbs) hx hv hs
+      intro x hxm f hf y hy
+      have hin := hmemnn x hxm f hf
+      have := List.all_eq_true.mp hpx (pxOut x) (List.mem_map_of_mem hin)
+      simp only [pxOut, hf] at this
+      cases hwv : f.posixAbs with
+      | ok v =>
+        rw [hwv] at this hy
+        obtain ⟨b, r⟩ := v
+        simp only [isAbs] at this
+        cases hy
+        simp [purePathCell, Cell.ofObj, Cell.blank, this]
+      | raises cls => rw [hwv] at hy; cases hy
 
 end V.Pd
